@@ -8,6 +8,7 @@ package main
 import (
 	"bufio"
 	"fmt"
+	"strings"
 
 	"git.metabarcoding.org/obitools/obitools4/obitools4/pkg/obialign"
 	"git.metabarcoding.org/obitools/obitools4/obitools4/pkg/obiapat"
@@ -26,6 +27,10 @@ type c10case struct {
 	PrevCirc bool  `json:"prevcirc"` // the recycled ApatSequence was a circular one
 	RcSeq  *string `json:"rcseq"` // when set: the complemented pattern is searched on this text (whole text)
 	Apis   bool    `json:"apis"`  // also run FilterBestMatch / AllMatches / BestMatch
+	Gc     bool    `json:"gc"`    // lifecycle: nothing is freed explicitly, the finalizers of pattern.go run (runtime.GC) before the next case
+	FreeGc bool    `json:"freegc"` // lifecycle: first a pattern, its complement and a sequence are built, released with Free and the garbage collector runs
+	Both   bool    `json:"both"`  // kind "pred": IsPatternMatchSequence(..., bothStrand, ...)
+	Seqs   []string `json:"seqs"` // kind "pred": the sequences the ONE predicate object is applied to, in order
 }
 
 type c10obs struct {
@@ -47,6 +52,7 @@ type c10obs struct {
 	Loc      []int    `json:"loc"`
 	LocPanic string   `json:"loc_panic,omitempty"`
 	Tables   *c10tabs `json:"tables,omitempty"`
+	Preds    []bool   `json:"preds,omitempty"` // kind "pred": IsPatternMatchSequence(...)(seq) for every sequence
 }
 
 func nz(l [][3]int) [][3]int {
@@ -61,6 +67,9 @@ func c10locate(pat, seq string) (o c10obs) {
 	defer func() {
 		if r := recover(); r != nil {
 			o.LocPanic = fmt.Sprint(r)
+			if strings.Contains(o.LocPanic, "cannot locate an empty pattern") {
+				o.LocPanic = "refused: cannot locate an empty pattern" // the guard of LocatePattern (log.Panicf), without the time stamp
+			}
 			if len(o.LocPanic) > 120 {
 				o.LocPanic = o.LocPanic[:120]
 			}
@@ -78,12 +87,18 @@ func c10run(c c10case) (o c10obs) {
 	if c.Kind == "tables" {
 		return c10obs{Kind: "tables", Tables: c10tables()}
 	}
+	if c.Kind == "pred" {
+		return c10pred(c)
+	}
 	defer func() {
 		if r := recover(); r != nil {
 			o.Kind = "panic"
 			o.Err = fmt.Sprint(r)
 		}
 	}()
+	if c.FreeGc {
+		c10freegc(c)
+	}
 	pat, err := obiapat.MakeApatPattern(c.Pat, c.K, c.Indel)
 	if err != nil {
 		return c10obs{Kind: "paterr"}
@@ -155,9 +170,17 @@ func c10run(c c10case) (o c10obs) {
 				panic(err)
 			}
 			o.CFind = nz(cp.FindAllIndex(raseq, 0, -1))
-			raseq.Free()
-			cp.Free()
+			if !c.Gc {
+				raseq.Free()
+				cp.Free()
+			}
 		}
+	}
+	if c.Gc {
+		// the finalizers set by MakeApatPattern / ReverseComplement / MakeApatSequence release the C memory:
+		// a finalizer that frees twice (or something still in use) aborts the process or corrupts the next cases
+		c10gc()
+		return
 	}
 	aseq.Free()
 	pat.Free()
@@ -166,6 +189,12 @@ func c10run(c c10case) (o c10obs) {
 
 func init() {
 	register("c10", func(in *bufio.Reader, out *bufio.Writer) error {
-		return eachLine(in, out, func(c c10case) any { return c10run(c) })
+		return eachLine(in, out, func(c c10case) any {
+			o := c10run(c)
+			if c.Gc { // the objects of the case are unreachable now: their finalizers run before the next case
+				c10gc()
+			}
+			return o
+		})
 	})
 }
